@@ -142,7 +142,7 @@ def c17(F, R, tier):
 
 @prop("C13",
       technique="static: writer tables and write-set/pairing rules on the typed HIR of the standardizer; writer/reader prefix-set agreement",
-      explanation="Decides (T-BOUNDROWS) per Real/NonNegativeReal arm: a finite min gives a GreaterOrEqual row and a finite max a LessOrEqual row, each guarded by its own finiteness test, with coefficient 1.0 at the variable's own index, no row for the default range; (W-PUSHPAIR) in the free-variable loop every container (variables, each constraint, objective) receives exactly two unconditional appends (+c,-c)/($p,$m) in that order and the four removals use the same index list; (T-SLACK) <= gets +1.0 named $sl_, >= gets -1.0 named $su_, = nothing, strict comparisons are rejected, total_variables is bumped per column; (T-FLIP) Max negates the objective and sets the flip flag, the offset is never negated, a negated rhs negates all coefficients; (S-SPLIT) prefixes written by the standardizer/two-phase start equal the prefixes the tableau read-back understands; (SIGN-SPLIT) the rhs normalisation uses an exact sign test. NOT decided: point-wise equivalence of the two feasible sets and objective values.")
+      explanation="Decides (T-BOUNDROWS) per Real/NonNegativeReal arm: a finite min gives a GreaterOrEqual row and a finite max a LessOrEqual row, each guarded by its own finiteness test, with coefficient 1.0 at the variable's own index, no row for the default range; (W-PUSHPAIR) in the free-variable loop every container (variables, each constraint, objective) receives exactly two unconditional appends (+c,-c)/($p,$m) in that order and the four removals use the same index list; (T-SLACK) <= gets +1.0 named $sl_, >= gets -1.0 named $su_, = nothing, strict comparisons are rejected, total_variables is bumped per column; (T-FLIP) Max negates the objective and sets the flip flag, the offset is never negated, a negated rhs negates all coefficients; (S-SPLIT) prefixes written by the standardizer/two-phase start equal the prefixes the tableau read-back understands; (SIGN-SPLIT) the rhs normalisation uses an exact sign test. (STD-EQUIV) to_standard_form with normalize_constraint, EqualityConstraint::new and remove_many is evaluated from its typed HIR on a family of 54 continuous models covering every case the code distinguishes (each domain class alone and on either side of free variables, 2-4 adjacent free variables, every relation with positive / zero / negative / tiny-negative right-hand side, both senses, offsets); the result must be exactly the textbook standard form of the model: the model's rows followed by one row per non-default bound, each scaled by -1 iff its right-hand side is negative, one $sl/$su column of the right sign per inequality used by that row only, every free variable replaced by a $p/$m pair with opposite coefficients in every row and in the objective, costs negated for Max with the flip flag set, offset kept; Boolean / integer models are refused. NOT decided: point-wise equivalence of the two feasible sets and objective values.")
 def c13(F, R, tier):
     import c13 as mod
     mod.check(F, R)
